@@ -162,6 +162,18 @@ def explore(cfg, workers=None, timeout=3000, module="EmuMC"):
 # --------------------------------------------------------------------------
 # model event -> real event
 
+# Task type labels whose hash lands on a boundary of the arithmetic of task_get_type_gid() (found once by
+# brute force over the hash of uthash.h, committed as data): label ids 900.. stand for these texts.
+#   hash + 666 wraps 2^32 | masked hash in the last 666 values below 2^31 | masked hash below the reserved
+#   PCF values | gid = INT_MAX
+BOUNDARY_LABELS = ["kernel_530061", "kernel_12052549", "kernel_10079980", "kernel_11048515", "task_1167807",
+                   "stencil_block_4081935", "kernel_17765406", "kernel_18086839", "kernel_116275340"]
+
+
+def label_text(k):
+    return BOUNDARY_LABELS[k - 900] if 900 <= k < 900 + len(BOUNDARY_LABELS) else "T%d" % k
+
+
 def concretise(e):
     """Model event record -> synth event (payload bytes)."""
     m = e["m"]
@@ -169,7 +181,7 @@ def concretise(e):
     out = {"th": e["th"], "m": m}
     if m in ("VYc", "6Yc"):
         if e.get("j", True) and len(a) >= 2:
-            out["jumbo"] = (struct.pack("<I", a[0]) + ("T%d" % a[1]).encode() + b"\0").hex()
+            out["jumbo"] = (struct.pack("<I", a[0]) + label_text(a[1]).encode() + b"\0").hex()
         elif len(a) >= 2:
             # a NORMAL event (no jumbo flag) whose 16-byte payload is laid out like a jumbo type event
             # (size, type id, terminated label): it must be refused for not being jumbo, whatever it carries
